@@ -258,6 +258,18 @@ def bounded(uni, tier, seed):
     # the strided n-way split that prints a compound step under a product
     specs.append("einsum:\n  declaration:\n    I: [W]\n    F: [S]\n    O: [Q]\n  expressions:\n    - O[q] = I[2*q + s] * F[s]\n"
                  "mapping:\n  partitioning:\n    O:\n      Q: [nway_shape(4)]\n      W: [follow(Q)]\n  loop-order:\n    O: [Q1, Q0, S]\n")
+    # accelerator attributes spelled as floats / infinity (whatever the compiler accepts must print as the tree it built)
+    from props import accel_family
+    base_acc = accel_family.spec(None, "two-finger", "contiguous", ("coord", "payload"), ("L2", "Buf"), "lazy")
+    for old, news in (("bandwidth: 1024\n", ["bandwidth: inf\n", "bandwidth: 1024.5\n", "bandwidth: 1e3\n"]),
+                      ("bandwidth: 4096\n", ["bandwidth: inf\n", "bandwidth: 0.5\n"]),
+                      ("depth: 256\n", ["depth: inf\n", "depth: 256.5\n", "depth: 131072.0\n", "depth: 2730.666\n"]),
+                      ("depth: 1024\n", ["depth: inf\n", "depth: 1000000.7\n"]),
+                      ("width: 64\n", ["width: 64.0\n", "width: 12\n"]),
+                      ("clock_frequency: 1000000000\n", ["clock_frequency: 1.5e9\n", "clock_frequency: inf\n"])):
+        for new in news:
+            if old in base_acc:
+                specs.append(base_acc.replace(old, new))
     for y in specs:
         try:
             objs = [Einsum.from_str(y), Mapping.from_str(y)]
@@ -279,7 +291,8 @@ def bounded(uni, tier, seed):
     return {"evaluations": ev, "distinct_nontrivial": len(distinct) + n3 + n4, "failures": fails, "samples": samples,
             "rule": "literal leaves read back as the value held (random doubles by bit pattern + boundary values); "
                     "CoordAccess.build_expr on enumerated affine expressions and their sympy-solved forms; the statement "
-                    "tree HiFiber(...).hifiber of every integration spec and of the C19 family converted structurally "
+                    "tree HiFiber(...).hifiber of every integration spec, of the C19 family and of an accelerator specification "
+                    "with float / infinite attribute values converted structurally "
                     "and compared with ast.parse of the emitted text (bounded)"}
 
 
